@@ -30,6 +30,18 @@ def cases(tier, seed):
     defs = space.family_bind(tier) + [d for d in space.family_ops(tier) if d["name"].split("-")[1] in
                                       ("mul", "div", "sin", "exp", "mix1", "mix2", "mix3", "pow2", "pow-1")]
     defs += space.family_sing()
+    # filters of equal and different shapes alive together, calls alternated between them
+    inter = [space.bind_def(2, 1, 1, order=0), space.bind_def(2, 1, 1, order=3, tag="-twin"), space.bind_def(3, 2, 0, order=1),
+             space.bind_def(2, 2, 2, order=2), space.bind_def(3, 2, 1, order=4)]
+    # same symbols, different noise assignment: "all positive per-control noise assignments"
+    for d_ in (inter[1], inter[3]):
+        d_["pnoise"] = [[k_, v_ * 4.0 + 0.125 * i_] for i_, (k_, v_) in enumerate(reversed(d_["pnoise"]))]
+    yield {"kind": "interleave", "defs": inter, "seed": seed}
+    yield {"kind": "interleave", "defs": list(reversed(inter)), "seed": seed}
+    for d_ in defs[:27:4]:  # and a second noise assignment for a sample of the BIND shapes in the ordinary cases
+        if d_["pnoise"]:
+            d2 = dict(d_, name=d_["name"] + "-noise2", pnoise=[[k_, v_ * 4.0 + 0.125 * i_] for i_, (k_, v_) in enumerate(d_["pnoise"])])
+            defs.append(d2)
     for d in defs:
         n = len(d["state"])
         for pname, P in cov_menu(n, tier):
@@ -41,6 +53,11 @@ def cases(tier, seed):
 
 
 def eval_case(case):
+    if case.get("kind") == "interleave":
+        from fv import ekfcheck
+        n, fails = ekfcheck.interleave(case["defs"], case["seed"], "predict")
+        return {"n": n, "fails": fails, "sig": "interleave", "outcomes": ["evaluated", "interleaved"],
+                "sample": {"kind": "interleave", "filters": [d_["name"] for d_ in case["defs"]], "calls": n}}
     d = case["def"]
     ref = RefEKF(d)
     fails = []
@@ -125,4 +142,4 @@ def eval_case(case):
             "sample": {"program": d["name"], "P": case["Pname"], "pnoise": d["pnoise"], "predictions": n}}
 
 
-REQUIRED_OUTCOMES = ["evaluated"]
+REQUIRED_OUTCOMES = ["evaluated", "interleaved"]
